@@ -3,6 +3,8 @@
 #pragma once
 #include "oracle_inc.hh"
 #include "model.hh"
+#include "calls.hh"
+#include "oracle_fan.hh"
 
 namespace vf {
 
@@ -23,6 +25,9 @@ struct EngCfg {
     int init_bu = -1;         // -1 random; else bit0 V, bit1 E, bit2 F
     bool full_bu_bias = false; // keep all incidences on most of the time
     int max_v = 14, max_e = 40, max_f = 30, max_c = 8;
+    int fan_bias = 0;         // out of 10 build steps: build an edge fan (ring/chain of tets around an edge)
+    int block_bias = 2;       // hex kernel: out of 10 build steps add a block of hexes
+    bool chk_fan = false;     // C09 oracles after every step
 };
 
 struct CellTemplate { const char *name; int nv; std::vector<std::vector<int>> faces; };
@@ -48,6 +53,9 @@ struct Engine {
     std::vector<std::unique_ptr<IProp>> props;   // user properties incl. the two half-entity tag props
     IProp *hetag = nullptr, *hftag = nullptr;
     int prop_serial = 0;
+    int init_mode_used = 0;
+    std::vector<Call> *recorder = nullptr;   // API-level call stream for a twin mesh (C12)
+    void rec(Call::Op op, int a = 0, int b = 0, int c = 0, std::vector<int> l = {}) { if (recorder) recorder->push_back(Call{op, a, b, c, std::move(l)}); }
     bool after_clear_props = false;   // clear(true) happened: held properties were anonymised
 
     Engine(Ctx &c, const EngCfg &g) : ctx(c), rng(c.rng), cfg(g),
@@ -59,6 +67,7 @@ struct Engine {
         props.push_back(std::move(he)); props.push_back(std::move(hf));
         int mode = cfg.init_mode >= 0 ? cfg.init_mode : (int)rng.below(4);
         // default of the library is deferred+fast
+        init_mode_used = mode;
         mesh.enable_deferred_deletion(mode & 1); mesh.enable_fast_deletion(mode & 2);
         int bu = cfg.init_bu >= 0 ? cfg.init_bu : (cfg.full_bu_bias && rng.chance(3, 4) ? 7 : (int)rng.below(8));
         mesh.enable_vertex_bottom_up_incidences(bu & 1); mesh.enable_edge_bottom_up_incidences(bu & 2); mesh.enable_face_bottom_up_incidences(bu & 4);
@@ -78,18 +87,20 @@ struct Engine {
     static Vec3d pos_for(int id) { return Vec3d(id, 2.0 * id + 1, -0.5 * id); }
     bool deferred() const { return mesh.deferred_deletion_enabled(); }
 
-    void tag_vertex(int h, int id) { vtag[VertexHandle(h)] = id; mesh.set_vertex(VertexHandle(h), pos_for(id)); }
+    void tag_vertex(int h, int id) { rec(Call::TAG_V, h, id); vtag[VertexHandle(h)] = id; mesh.set_vertex(VertexHandle(h), pos_for(id)); }
     void tag_edge(int h, int id) {
+        rec(Call::TAG_E, h, id);
         etag[EdgeHandle(h)] = id;
         auto *p = static_cast<PropT<int, ovm::Entity::HalfEdge> *>(hetag);
         for (int sd = 0; sd < 2; ++sd) { p->p[HalfEdgeHandle(2 * h + sd)] = 2 * id + sd; hetag->shadow[2 * id + sd] = std::to_string(2 * id + sd); }
     }
     void tag_face(int h, int id) {
+        rec(Call::TAG_F, h, id);
         ftag[FaceHandle(h)] = id;
         auto *p = static_cast<PropT<int, ovm::Entity::HalfFace> *>(hftag);
         for (int sd = 0; sd < 2; ++sd) { p->p[HalfFaceHandle(2 * h + sd)] = 2 * id + sd; hftag->shadow[2 * id + sd] = std::to_string(2 * id + sd); }
     }
-    void tag_cell(int h, int id) { ctag[CellHandle(h)] = id; }
+    void tag_cell(int h, int id) { rec(Call::TAG_C, h, id); ctag[CellHandle(h)] = id; }
     int vid(int h) const { return vtag[VertexHandle(h)]; }
     int eid(int h) const { return etag[EdgeHandle(h)]; }
     int fid(int h) const { return ftag[FaceHandle(h)]; }
@@ -135,6 +146,7 @@ struct Engine {
     int op_add_vertex() {
         int n0 = (int)mesh.n_vertices();
         int id = model.add_v();
+        rec(Call::ADD_V, id);
         auto h = mesh.add_vertex(pos_for(id));
         ctx.op("add_vertex()->" + std::to_string(h.idx()));
         VF_CHECK(h.idx() == n0 && (int)mesh.n_vertices() == n0 + 1, "oracle:add_vertex.handle", "returned " << h.idx() << " expected " << n0);
@@ -144,6 +156,7 @@ struct Engine {
     }
     void op_add_n_vertices() {
         int n0 = (int)mesh.n_vertices(); int k = (int)rng.below(4);
+        rec(Call::ADD_NV, k);
         mesh.add_n_vertices(k);
         ctx.op("add_n_vertices(" + std::to_string(k) + ")");
         VF_CHECK((int)mesh.n_vertices() == n0 + k, "oracle:add_n_vertices.count", "n=" << mesh.n_vertices() << " expected " << n0 + k);
@@ -155,6 +168,7 @@ struct Engine {
     int op_add_edge(int a, int b, bool dup) {
         int n0 = (int)mesh.n_edges();
         auto existing = halfedges_between(a, b);
+        rec(Call::ADD_E, a, b, dup);
         auto h = mesh.add_edge(VertexHandle(a), VertexHandle(b), dup);
         ctx.op("add_edge(" + std::to_string(a) + "," + std::to_string(b) + ",dup=" + std::to_string(dup) + ")->" + std::to_string(h.idx()));
         if (!dup && !existing.empty()) {
@@ -224,6 +238,7 @@ struct Engine {
     int op_add_face(std::vector<int> hes, bool check) {
         int n0 = (int)mesh.n_faces();
         std::vector<HalfEdgeHandle> hh; for (int h : hes) hh.emplace_back(h);
+        rec(Call::ADD_F, check, 0, 0, hes);
         auto f = mesh.add_face(hh, check);
         ctx.op("add_face(hes=" + ivec(hes) + ",check=" + std::to_string(check) + ")->" + std::to_string(f.idx()));
         VF_CHECK(f.idx() == n0 && (int)mesh.n_faces() == n0 + 1, "oracle:add_face.handle", "closed loop " << ivec(hes) << " returned " << f.idx() << " expected " << n0);
@@ -250,6 +265,7 @@ struct Engine {
         // incidences + deferred-deleted look-alikes its choice is unspecified/defective (C11 covers that)
         int nv0 = s.nv, ne0 = s.ne, nf0 = s.nf, nc0 = s.nc;
         std::vector<VertexHandle> vh; for (int v : lv) vh.emplace_back(v);
+        rec(Call::ADD_FV, 0, 0, 0, lv);
         auto f = mesh.add_face(vh);
         ctx.op("add_face(vertices=" + ivec(lv) + ")->" + std::to_string(f.idx()));
         VF_CHECK(f.idx() == nf0 && (int)mesh.n_faces() == nf0 + 1, "oracle:add_face(v).handle", "returned " << f.idx() << " expected " << nf0);
@@ -380,6 +396,7 @@ struct Engine {
     int op_add_cell(const std::vector<int> &hfs, bool check, const char *what) {
         int n0 = (int)mesh.n_cells();
         std::vector<HalfFaceHandle> hh; for (int h : hfs) hh.emplace_back(h);
+        rec(Call::ADD_C, check, 0, 0, hfs);
         auto c = mesh.add_cell(hh, check);
         ctx.op(std::string("add_cell(") + what + ",hfs=" + ivec(hfs) + ",check=" + std::to_string(check) + ")->" + std::to_string(c.idx()));
         VF_CHECK(c.idx() == n0 && (int)mesh.n_cells() == n0 + 1, "oracle:add_cell.handle", "closed surface returned " << c.idx() << " expected " << n0);
@@ -391,6 +408,49 @@ struct Engine {
         tag_cell(c.idx(), model.add_c(ids));
         rescan();
         return c.idx();
+    }
+
+    // ring or chains of tets around one edge, attached in random order (C09 workload)
+    void op_add_fan() {
+        if (KIND == 2) { op_add_hex_block(); return; }
+        int k = 3 + (int)rng.below(6);
+        bool closed = rng.chance(1, 2);
+        int a = op_add_vertex(), b = op_add_vertex();
+        std::vector<int> r; for (int i = 0; i < k; ++i) r.push_back(op_add_vertex());
+        std::vector<int> idx; for (int i = 0; i < (closed ? k : k - 1); ++i) idx.push_back(i);
+        rng.shuffle(idx);
+        if (rng.chance(1, 3) && idx.size() > 2) idx.resize(idx.size() - 1 - rng.below(2));   // leave gaps: several chains
+        ctx.cls(closed ? "fan:ring" : "fan:chain");
+        const auto &t = cell_templates()[0];
+        for (int i : idx) {
+            std::vector<int> vmap{a, b, r[i], r[(i + 1) % k]};
+            auto hfs = realise_template(t, vmap);
+            if (hfs.empty()) continue;
+            op_add_cell(hfs, rng.chance(1, 2), "fan-tet");
+            check_all();
+        }
+    }
+    // block of hexes (grid cells, random subset), vertices in OVM's hex order
+    void op_add_hex_block() {
+        int dx = 1 + (int)rng.below(3), dy = 1 + (int)rng.below(2), dz = 1 + (int)rng.below(2);
+        std::vector<int> grid((dx + 1) * (dy + 1) * (dz + 1));
+        for (auto &g : grid) g = op_add_vertex();
+        auto at = [&](int x, int y, int z) { return grid[(z * (dy + 1) + y) * (dx + 1) + x]; };
+        static const int off[8][3] = {{0, 0, 0}, {1, 0, 0}, {1, 1, 0}, {0, 1, 0}, {0, 0, 1}, {0, 1, 1}, {1, 1, 1}, {1, 0, 1}};
+        std::vector<std::array<int, 3>> cells;
+        for (int z = 0; z < dz; ++z) for (int y = 0; y < dy; ++y) for (int x = 0; x < dx; ++x) cells.push_back({x, y, z});
+        rng.shuffle(cells);
+        if (cells.size() > 2 && rng.chance(1, 2)) cells.resize(cells.size() - 1 - rng.below(std::min<size_t>(3, cells.size() - 1)));
+        const auto &t = cell_templates()[1];
+        ctx.cls("hex-block:" + std::to_string(dx) + "x" + std::to_string(dy) + "x" + std::to_string(dz));
+        for (auto &c : cells) {
+            std::vector<int> vmap(8);
+            for (int i = 0; i < 8; ++i) vmap[i] = at(c[0] + off[i][0], c[1] + off[i][1], c[2] + off[i][2]);
+            auto hfs = realise_template(t, vmap);
+            if (hfs.empty()) continue;
+            op_add_cell(hfs, rng.chance(1, 2), "block-hex");
+            check_all();
+        }
     }
 
     int pick_victim(const std::vector<int> &l) {
@@ -422,6 +482,7 @@ struct Engine {
         bool d = deferred();
         static const char *nm[] = {"delete_vertex", "delete_edge", "delete_face", "delete_cell"};
         ctx.op(std::string(nm[kind]) + "(" + std::to_string(h) + ")[" + cfgclass() + "]");
+        rec(Call::DEL, kind, h);
         if (kind == 0) { int id = vid(h); auto it = mesh.delete_vertex(VertexHandle(h)); model.del_v(id, d); rescan(); check_returned_iter(it, 0, h, s.nv); }
         if (kind == 1) { int id = eid(h); auto it = mesh.delete_edge(EdgeHandle(h)); model.del_e(id, d); rescan(); check_returned_iter(it, 1, h, s.ne); }
         if (kind == 2) { int id = fid(h); auto it = mesh.delete_face(FaceHandle(h)); model.del_f(id, d); rescan(); check_returned_iter(it, 2, h, s.nf); }
@@ -451,6 +512,7 @@ struct Engine {
         return sn;
     }
     void do_swap(int kind, int a, int b) {
+        rec(Call::SWAP, kind, a, b);
         if (kind == 0) mesh.swap_vertex_indices(VertexHandle(a), VertexHandle(b));
         if (kind == 1) mesh.swap_edge_indices(EdgeHandle(a), EdgeHandle(b));
         if (kind == 2) mesh.swap_face_indices(FaceHandle(a), FaceHandle(b));
@@ -518,6 +580,7 @@ struct Engine {
         ctx.op("collect_garbage()[" + cfgclass() + "]");
         ctx.cnt.add("op.collect_garbage");
         if (model.any_pending()) ctx.cls("collect_garbage:pending");
+        rec(Call::GC);
         mesh.collect_garbage();
         if (deferred()) model.gc();
         rescan();
@@ -526,6 +589,7 @@ struct Engine {
         bool cp = rng.chance(1, 2);
         ctx.op(std::string("clear(") + (cp ? "true" : "false") + ")");
         ctx.cnt.add("op.clear");
+        rec(Call::CLEAR, cp);
         mesh.clear(cp);
         model.clear();
         for (auto &p : props) if (p->kind != 6) p->shadow.clear();   // the mesh itself (and its mesh properties) survives
@@ -550,11 +614,13 @@ struct Engine {
             ctx.op("enable_deferred_deletion(" + std::to_string(on) + ")[" + cfgclass() + "]");
             if (deferred() && !on && model.any_pending()) ctx.cls("leave-deferred:pending");
             bool was = deferred();
+            rec(Call::DEFERRED, on);
             mesh.enable_deferred_deletion(on);
             if (was && !on) model.gc();
         } else {
             bool on = rng.chance(1, 2);
             ctx.op("enable_fast_deletion(" + std::to_string(on) + ")");
+            rec(Call::FAST, on);
             mesh.enable_fast_deletion(on);
         }
         ctx.cnt.add("op.mode");
@@ -570,6 +636,7 @@ struct Engine {
             int e = rng.pick(c); int a = rng.pick(lv), b = rng.pick(lv);
             if (a == b && (KIND != 0 || !cfg.allow_loops)) return;
             ctx.op("set_edge(" + std::to_string(e) + "," + std::to_string(a) + "," + std::to_string(b) + ")");
+            rec(Call::SET_E, e, a, b);
             mesh.set_edge(EdgeHandle(e), VertexHandle(a), VertexHandle(b));
             model.e[eid(e)].a = vid(a); model.e[eid(e)].b = vid(b);
             ctx.cnt.add("op.set_edge");
@@ -583,6 +650,7 @@ struct Engine {
             if (es.size() != hes.size()) return;
             ctx.op("set_face(" + std::to_string(f) + "," + ivec(hes) + ")");
             std::vector<HalfEdgeHandle> hh; for (int h : hes) hh.emplace_back(h);
+            rec(Call::SET_F, f, 0, 0, hes);
             mesh.set_face(FaceHandle(f), hh);
             std::vector<int> ids; for (int h : hes) ids.push_back(heid(h));
             model.f[fid(f)].hes = ids;
@@ -602,6 +670,7 @@ struct Engine {
             }
             ctx.op("set_cell(" + std::to_string(c) + "," + ivec(hfs) + ")");
             std::vector<HalfFaceHandle> hh; for (int h : hfs) hh.emplace_back(h);
+            rec(Call::SET_C, c, 0, 0, hfs);
             mesh.set_cell(CellHandle(c), hh);
             std::vector<int> ids; for (int h : hfs) ids.push_back(hfid(h));
             model.c[cid(c)].hfs = ids;
@@ -753,12 +822,15 @@ struct Engine {
         if (!deferred()) VF_CHECK(!model.any_pending() && s.nv == lv && s.ne == le && s.nf == lf && s.nc == lc, "oracle:model.immediate-leftover", "immediate mode but slots remain");
     }
 
+    std::function<void()> after_step;
     void check_all() {
+        if (after_step) after_step();
         ctx.cnt.add("checkpoints");
         ctx.cls(cfgclass());
         if (cfg.chk_model) check_model();
         if (cfg.chk_inc) check_incidences(mesh, s);
         if (cfg.chk_props) check_props();
+        if (cfg.chk_fan) { check_fan_order(mesh, s); check_adjacent_in_cell(mesh, s); }
         if (model.live(3) > 0) ctx.cnt.add("checkpoints.with-cells");
         if (model.any_pending()) ctx.cnt.add("checkpoints.with-pending");
         ctx.fold((uint64_t)s.nv * 1000003 + s.ne * 10007 + s.nf * 101 + s.nc);
@@ -766,6 +838,10 @@ struct Engine {
 
     // ------------------------------------------------------------ driver
     void build_step() {
+        if ((int)live_c().size() < cfg.max_c) {
+            if (cfg.fan_bias && (int)rng.below(10) < cfg.fan_bias) { op_add_fan(); return; }
+            if (KIND == 2 && (int)rng.below(10) < cfg.block_bias) { op_add_hex_block(); return; }
+        }
         int r = (int)rng.below(10);
         if (s.nv < 3 || r == 0) { op_add_vertex(); return; }
         if (r == 1) { op_add_n_vertices(); return; }
